@@ -76,9 +76,11 @@ func c03Body(c *ev.Ctx) {
 	{
 		var cases []c03Case
 		d := 1
-		batches := []int{1, 2, 18, 19}
+		// 64+4b bytes: 16,17 -> 128,132 bytes (the +8-bit domain byte still fits one 136-byte
+		// block), 18 -> exactly one block, 19 -> two blocks, 51 -> 268 bytes (second boundary)
+		batches := []int{1, 2, 16, 17, 18, 19, 50, 51, 52}
 		if quick {
-			batches = []int{1, 18, 19}
+			batches = []int{1, 16, 17, 18, 19, 51}
 		}
 		add := func(b delBatch, why string) {
 			cases = append(cases, c03Case{Del: &c02Case{Kind: "full-engine-bn", B: &b}, Why: why})
